@@ -133,15 +133,16 @@ pub mod xdr {
 
         /// Try to read an opaque XDR array with a fixed length and padded modulo 4.
         fn read_bytes(&mut self, n: usize) -> Result<Self::Sliced, Error> {
-            // Validate the buffer contains enough data
-            if self.remaining() < n {
+            // Validate the buffer contains enough data, including any padding.
+            let padded = n.checked_add(pad_length(n)).ok_or(Error::InvalidLength)?;
+            if self.remaining() < padded {
                 return Err(Error::InvalidLength);
             }
 
             let data = self.slice(..n);
 
             // Advance the buffer cursor, including any padding.
-            self.advance(n + pad_length(n));
+            self.advance(padded);
 
             Ok(data)
         }
